@@ -367,6 +367,12 @@ func c16Run(c *fw.Ctx) fw.Outcome {
 	if p := guard(func() { err = f.write(*sub, &b1) }); p != "" || err != nil {
 		return fw.Bad(key, desc, "%s: writer failed: %v %s", desc, err, p)
 	}
+	// (0) rendering a boundary does not change it: the list still holds the instants it was given
+	for k, it := range sub.Items {
+		if int64(it.StartAt) != ins[2*k] || int64(it.EndAt) != ins[2*k+1] {
+			return fw.Bad(key, desc, "%s: after writing, cue %d of the list holds [%d,%d) ns instead of the [%d,%d) ns it was given: the writer rounds the caller's cues in place, a later write to a finer format then renders other timestamps", desc, k, it.StartAt, it.EndAt, ins[2*k], ins[2*k+1])
+		}
+	}
 	// (1) grammar + (2) the rendering is the latest representable instant not after the boundary
 	dec, gerr := f.decode(b1.Bytes())
 	if gerr != "" {
